@@ -1,4 +1,4 @@
-"""C13 (partial) - matched-filter response is the normalised template correlation.
+"""C13 (partial) - matched-filter response is the normalised template correlation and its argmax.
 
 Decided (E1, numba typed IR, FFT as the trusted contract of symx.fftc):
   * normalize_template: zero mean and unit power (or unchanged when the power is zero);
@@ -6,9 +6,14 @@ Decided (E1, numba typed IR, FFT as the trusted contract of symx.fftc):
     convs[i,t] = sum_k zp[(t+k-ref) mod N] * Hn[k] with zp the data periodically extended to the good
     size N and Hn the normalised zero-padded template (normalisation entered as the elementwise map
     established above).
-NOT decided: FFT accuracy; the argmax bookkeeping of MatchedFilter._compute (numpy's own argmax /
-unravel_index); invariance under offset/scale of the data (needs the C15 estimators); gaussian and
-lorentzian template generators (exp)."""
+  * MatchedFilter._compute / __init__ (E2, real bytecode, numpy's own argmax/unravel_index on an object array of
+    symbolic responses): the z-scores and the bank (templates and reference bins in order) are what
+    convolve_templates receives, S/N is the maximum response and (best template, peak bin) its location; the
+    data are standardised with the requested location / scale estimators - hence the responses depend on the data
+    only through estimate_zscore, whose invariance under offset and positive scaling is decided in C15;
+  * get_box_width_spacing for a symbolic spacing factor: starts at 1, strictly increasing, bounded, maximal.
+NOT decided: FFT accuracy; gaussian and lorentzian template generators (exp); end-to-end recovery of a
+noiseless boxcar (Cauchy-Schwarz over the bank: nonlinear with square roots)."""
 from __future__ import annotations
 
 import json
@@ -132,10 +137,168 @@ def conv_work(P, item):
     P.reached += 1
 
 
+# ---------------------------------------------------------------- MatchedFilter bookkeeping (E2 on the real bytecode)
+def mf_work(P, item):
+    """MatchedFilter.__init__/_compute: the data are standardised with the requested estimators, the bank's
+    templates and reference bins go to convolve_templates in bank order together with the z-scores (so the
+    responses depend on the data only through the z-scores), and (snr, best template, peak bin) are the maximum of
+    the response matrix and its location."""
+    _, T_, N_ = item
+    from ..core import SReal, rebind, wrap
+    from sigpyproc.core import filters
+
+    class Tmp:
+        def __init__(self, k):
+            self.data, self.ref_bin, self.k = f"TDATA{k}", 10 + k, k
+
+    def run(ctx):
+        C = np.empty((T_, N_), dtype=object)
+        for i in np.ndindex(C.shape):
+            C[i] = SReal(z3.Real(f"c_{i[0]}_{i[1]}"))
+        calls = []
+
+        class KStub:
+            @staticmethod
+            def convolve_templates(z, temps, refs):
+                calls.append((z, list(temps), list(refs)))
+                return C
+
+        class TypedStub:
+            List = list
+
+        class ZS:
+            data = "ZDATA"
+
+        class Self:
+            zscores = ZS()
+            temp_bank = [Tmp(k) for k in range(T_)]
+        me = Self()
+        rebind(filters.MatchedFilter._compute, kernels=KStub, typed=TypedStub)(me)
+        return dict(me=me, C=C, calls=calls)
+
+    def on_path(ctx, o):
+        Ctx.cur = ctx
+        me, C = o["me"], o["C"]
+        nm = f"MatchedFilter._compute[{T_} templates x {N_} bins]"
+        viol = []
+        viol.append(("templates, reference bins (bank order) and the z-scores are what convolve_templates receives",
+                     z3.BoolVal(o["calls"] != [("ZDATA", [f"TDATA{k}" for k in range(T_)], [10 + k for k in range(T_)])])))
+        it, pk = int(me._itemp), int(me._peak_bin)
+        inr = 0 <= it < T_ and 0 <= pk < N_
+        viol.append(("peak location inside the response matrix", z3.BoolVal(not inr)))
+        if inr:
+            viol.append(("S/N is the response at the reported template and bin", wrap(me._best_snr).e != C[it, pk].e))
+            viol.append(("S/N is the maximum response", z3.Or([C[i].e > C[it, pk].e for i in np.ndindex(C.shape)])))
+            viol.append(("best template is the bank entry of the reported row", z3.BoolVal(me._best_temp is not me.temp_bank[it])))
+        for name, c in viol:
+            if ctx.check(c) == z3.unsat:
+                P.obligation(f"{nm}/{name}", "holds", symbolic=True)
+            else:
+                m = ctx.solver.model()
+                vals = [[float(Fraction(m.eval(C[i, j].e, model_completion=True).numerator_as_long(), m.eval(C[i, j].e, model_completion=True).denominator_as_long()))
+                         for j in range(N_)] for i in range(T_)]
+                violation(P, f"{nm}/{name}", dict(kind="compute", convs=vals))
+                break
+        P.reached += 1
+        Ctx.cur = None
+    try:
+        explore(run, bound=2, on_path=on_path, stats=P.stats, deadline_s=300)
+    except Inconclusive as ex:
+        P.inconclusive_(f"{item}: {ex}")
+
+
+def init_work(P, item):
+    """MatchedFilter.__init__: 1-D data only; estimate_zscore(data, loc_method, scale_method) is what gets standardised"""
+    from ..core import rebind
+    from sigpyproc.core import filters
+    calls = []
+
+    def ez(data, loc_method=None, scale_method=None, **kw):
+        calls.append((data.dtype == np.float32 and data.tolist(), loc_method, scale_method, kw))
+        return "ZS"
+
+    class Self:
+        data = property(filters.MatchedFilter.data.fget)
+
+        def _setup_templates(self, nb, sf):
+            calls.append(("setup", nb, sf))
+
+        def _compute(self):
+            calls.append(("compute",))
+    me = Self()
+    rebind(filters.MatchedFilter.__init__, estimate_zscore=ez)(me, np.array([1.0, 2.0, 4.0]), "mean", "mad", "boxcar", 8, 2.0)
+    ok = calls == [([1.0, 2.0, 4.0], "mean", "mad", {}), ("setup", 8, 2.0), ("compute",)] and me._zscores == "ZS" and me._temp_kind == "boxcar"
+    try:
+        rebind(filters.MatchedFilter.__init__, estimate_zscore=ez)(Self(), np.zeros((2, 2)))
+        ok = False
+    except ValueError:
+        pass
+    P.stats.queries += 1
+    P.reached += 1
+    if ok:
+        P.obligation("MatchedFilter.__init__: float32 copy of the 1-D data standardised with the requested location/scale methods, then templates, then responses", "holds", symbolic=False)
+    else:
+        violation(P, "MatchedFilter.__init__ bookkeeping", dict(kind="init"))
+
+
+def widths_work(P, item):
+    """get_box_width_spacing with a symbolic spacing factor: widths start at 1, strictly increase, never exceed the
+    maximum, follow w' = int(max(w+1, f*w)) and stop only when the next width would exceed the maximum"""
+    _, size_max = item
+    from ..core import SInt, SReal, rebind, s_int, s_max, wrap
+    from sigpyproc.core import filters
+
+    class NPw:
+        float32 = np.float32
+
+        @staticmethod
+        def array(v, dtype=None):
+            return list(v)
+
+    def run(ctx):
+        f = SReal(z3.Real("f"))
+        ctx.assume(z3.And(f.e >= z3.RealVal("1/2"), f.e <= 4))
+        fn = filters.MatchedFilter.__dict__["get_box_width_spacing"].__func__
+        return rebind(fn, np=NPw, int=s_int, max=s_max)(size_max, f), f
+
+    def on_path(ctx, o):
+        Ctx.cur = ctx
+        w, f = o
+        nm = f"get_box_width_spacing[size_max={size_max}]"
+        ws = [wrap(x).e for x in w]
+        ws = [z3.ToReal(x) if x.sort() == z3.IntSort() else x for x in ws]
+        viol = [("first width is 1", ws[0] != 1),
+                ("widths strictly increase", z3.Or([ws[i + 1] <= ws[i] for i in range(len(ws) - 1)] or [z3.BoolVal(False)])),
+                ("no width exceeds the maximum", z3.Or([x > size_max for x in ws])),
+                ("consecutive widths: w' = trunc(max(w+1, f*w))", z3.Or([z3.Not(z3.And(ws[i + 1] >= ws[i] + 1, z3.Or(ws[i + 1] == ws[i] + 1, z3.And(ws[i + 1] <= f.e * ws[i], ws[i + 1] > f.e * ws[i] - 1))))
+                                                                           for i in range(len(ws) - 1)] or [z3.BoolVal(False)])),
+                ("the bank is maximal: the next width would exceed the maximum", z3.And(ws[-1] + 1 <= size_max, f.e * ws[-1] < size_max + 1))]
+        for name, c in viol:
+            if ctx.check(c) == z3.unsat:
+                P.obligation(f"{nm}/{name}", "holds", symbolic=True)
+            else:
+                m = ctx.solver.model()
+                v = m.eval(f.e, model_completion=True)
+                violation(P, f"{nm}/{name}", dict(kind="widths", size_max=size_max, factor=float(Fraction(v.numerator_as_long(), v.denominator_as_long()))))
+                break
+        P.reached += 1
+        Ctx.cur = None
+    try:
+        explore(run, bound=size_max + 2, on_path=on_path, stats=P.stats, deadline_s=300)
+    except Inconclusive as ex:
+        P.inconclusive_(f"{item}: {ex}")
+
+
 def batch(P, items):
     for it in items:
         if it[0] == "norm":
             norm_work(P, it[1])
+        elif it[0] == "mf":
+            mf_work(P, it)
+        elif it[0] == "init":
+            init_work(P, it)
+        elif it[0] == "widths":
+            widths_work(P, it)
         else:
             conv_work(P, it)
 
@@ -150,12 +313,17 @@ def run(R):
         for tl in range(1, min(n, 3) + 1):
             for ref in range(tl):
                 items.append(("conv", n, tl, ref))
+    items += [("mf", 1, 3), ("mf", 2, 2), ("mf", 2, 3)] + ([] if quick else [("mf", 3, 3), ("mf", 2, 4)])
+    items += [("init",)] + [("widths", m) for m in ((1, 2, 5, 8) if quick else (1, 2, 3, 5, 8, 12, 16))]
+    from sigpyproc.core import filters
+    R.encode(filters.MatchedFilter._compute, filters.MatchedFilter.__init__, filters.MatchedFilter.__dict__["get_box_width_spacing"].__func__)
     R.bounds.update(dict(data=f"data lengths 1..{nmax} (good sizes incl. odd ones: 3, 5, 9), template lengths 1..3, every reference bin, symbolic real data and templates",
                          normalisation="template lengths 1..4"))
     R.assume("FFT contract of symx.fftc (trusted)", "normalisation inside convolve_templates = one elementwise affine map NORMALISED(.) applied to every bin of the padded template "
              "(established for normalize_template separately)", "exact arithmetic")
-    R.out_of_claim("NOT DECIDED: FFT accuracy; MatchedFilter._compute's argmax/unravel_index bookkeeping; invariance under offset/scale (needs C15's estimators); "
-                   "gaussian/lorentzian generators; recovery of a noiseless boxcar (follows from the response formula, not checked end to end)")
+    R.bounds.update(dict(bookkeeping="response matrices of 1x3, 2x2, 2x3 (thorough: 3x3, 2x4) symbolic reals; box widths for maxima 1..16 with a symbolic spacing factor in [0.5, 4]"))
+    R.assume("invariance under offset / positive scaling is compositional: responses depend on the data only through estimate_zscore (decided here), whose equivariance is C15")
+    R.out_of_claim("NOT DECIDED: FFT accuracy; gaussian/lorentzian generators (exp); recovery of a noiseless boxcar end to end (nonlinear with square roots)")
     from .. import kvalid
     kvalid.validate(R, ["normalize_template", "circular_pad_goodsize"])
     chunks = [items[i::12] for i in range(12)]
